@@ -76,13 +76,34 @@ def same(a, b, rtol=1e-9):
         return bool(numpy.allclose(a, b, rtol=rtol, atol=1e-9 * max(1., float(numpy.abs(a).max()) if a.size else 1.)))
     return bool((a == b).all())
 
+import types as _pytypes
+class _PoisonNP(_pytypes.ModuleType):
+    '''real numpy whose empty() is filled with a recognisable value: the symbolic runs treat uninitialised memory as arbitrary, so a counterexample that
+    reads an entry that was never written reproduces deterministically in the replay (fresh memory is usually zero otherwise)'''
+    def __init__(s): super().__init__('numpy_poisoned')
+    def __getattr__(s, n): return getattr(numpy, n)
+    @staticmethod
+    def empty(shape, dtype=float, **kw):
+        dt = numpy.dtype(dtype)
+        fill = {'f': 12345.678, 'c': 12345.678 - 321.5j, 'i': 7919, 'u': 7919, 'b': True}.get(dt.kind, 0)
+        return numpy.full(shape, fill, dtype=dt)
+    @staticmethod
+    def empty_like(a, dtype=None, **kw):
+        return _PoisonNP.empty(numpy.shape(a), dtype or numpy.asarray(a).dtype)
+POISON = _PoisonNP()
+
 def concrete_eval(e, args, strict=False, **cfg):
     '''strict: floating point invalid/divide conditions in ANY intermediate raise (the input is outside the domain of e)'''
     with warnings.catch_warnings():
         warnings.simplefilter('ignore')
         f = ev.compile(e, cache_const_intermediates=False, **cfg)
-        with numpy.errstate(**(dict(invalid='raise', divide='raise', over='raise', under='ignore') if strict else dict(all='ignore'))):
-            return f({k: numpy.array(v) for k, v in args.items()})
+        f.__globals__['numpy'] = POISON
+        saved = ev.numpy; ev.numpy = POISON
+        try:
+            with numpy.errstate(**(dict(invalid='raise', divide='raise', over='raise', under='ignore') if strict else dict(all='ignore'))):
+                return f({k: numpy.array(v) for k, v in args.items()})
+        finally:
+            ev.numpy = saved
 
 def tolist(x):
     if isinstance(x, dict): return {k: tolist(v) for k, v in x.items()}
